@@ -15,12 +15,16 @@
 //                                            ThreadSanitizer mode); flags&2: yield between operations
 //   T <tid> <op>        op (C07 syntax): store <now> <key> <val> <trig,..|-> <deadline> <gen|->
 //                                        fetch <now> <key> | rise <trig> | remove <key> | clear | stats
+//   I <op>              prologue operation, run by the main thread before the threads are started (tid = nthreads+1)
 //   X <op>              epilogue operation, run by the main thread after all threads were joined (tid = nthreads)
 //   run
 // stdout, per case:
 //   R <tid> <idx> <inv> <res> <hook stamp|-> <result> ; <op>       one per operation
 //   E <text>                                                       harness-detected anomalies
 //   end
+// Watchdog: every case must finish within C09_WATCHDOG seconds (default 30; the slowest case takes about a
+// second): otherwise `HANG case <n>` is printed and the process exits with status 77 — an operation that never
+// completes (e.g. a lookup spinning in a corrupted, cyclic bucket chain) is a violation, not a time-out.
 #include "common.h"
 #include "base_cache.h"
 #include "cache_storage.h"
@@ -30,6 +34,8 @@
 #include <set>
 #include <sched.h>
 #include <time.h>
+#include <signal.h>
+#include <unistd.h>
 
 static thread_local time_t tl_now = 1000;
 extern "C" time_t time(time_t *t) { if(t) *t=tl_now; return tl_now; }
@@ -164,8 +170,20 @@ static void worker(base_cache *cache,std::vector<op_t> *ops,int nthreads,unsigne
 	tl_rng=0;
 }
 
+static volatile unsigned long g_caseno=0;
+static void on_alarm(int)
+{
+	char buf[96];
+	int n=snprintf(buf,sizeof(buf),"HANG case %lu: operations did not complete\n",(unsigned long)g_caseno);
+	if(n>0) { ssize_t r=write(1,buf,n); r=write(2,buf,n); (void)r; }
+	_exit(77);
+}
+
 int main()
 {
+	unsigned watchdog=30;
+	if(getenv("C09_WATCHDOG")) watchdog=atoi(getenv("C09_WATCHDOG"));
+	signal(SIGALRM,on_alarm);
 	std::ios::sync_with_stdio(false);
 	std::string line;
 	int nthreads=0; unsigned limit=0,flags=1;
@@ -177,14 +195,20 @@ int main()
 		if(w[0]=="case" && w.size()==5) {
 			nthreads=atoi(w[1].c_str()); limit=strtoul(w[2].c_str(),0,10); g_spin=strtoul(w[3].c_str(),0,10); flags=strtoul(w[4].c_str(),0,10);
 			if(nthreads<1 || nthreads>64) { std::cout<<"E bad-case\nend\n"; nthreads=0; continue; }
-			progs.assign(nthreads+1,std::vector<op_t>());	// the last one: epilogue run by the main thread after the join
+			progs.assign(nthreads+2,std::vector<op_t>());	// [nthreads]: epilogue (main thread, after the join), [nthreads+1]: prologue (before the start)
 			caseno++;
+			g_caseno=caseno;
 		}
 		else if(w[0]=="T" && w.size()>=3) {
 			int t=atoi(w[1].c_str());
 			op_t o;
 			if(t<0 || t>=nthreads || !parse_op(w,2,o)) { std::cout<<"E bad-op "<<line<<"\n"; continue; }
 			progs[t].push_back(o);
+		}
+		else if(w[0]=="I" && w.size()>=2 && nthreads>0) {
+			op_t o;
+			if(!parse_op(w,1,o)) { std::cout<<"E bad-op "<<line<<"\n"; continue; }
+			progs[nthreads+1].push_back(o);
 		}
 		else if(w[0]=="X" && w.size()>=2 && nthreads>0) {
 			op_t o;
@@ -195,6 +219,12 @@ int main()
 			booster::intrusive_ptr<base_cache> cache=cppcms::impl::thread_cache_factory(limit);
 			g_clock.store(1); g_ready.store(0); g_go.store(0);
 			cppcms_verif_cache_hook = (flags&1) ? hook_cb : 0;
+			std::cout.flush();
+			alarm(watchdog);
+			// prologue: single-threaded
+			g_go.store(1);
+			worker(cache.get(),&progs[nthreads+1],1,flags&1,caseno*1000003ull+77773ull);
+			g_ready.store(0); g_go.store(0);
 			std::vector<std::thread> th;
 			for(int t=0;t<nthreads;t++)
 				th.push_back(std::thread(worker,cache.get(),&progs[t],nthreads,flags,caseno*1000003ull+t*7919ull+1));
@@ -204,8 +234,9 @@ int main()
 			// epilogue: single-threaded, makes the final state (values, counters, LRU order via evictions) observable
 			g_ready.store(0);
 			worker(cache.get(),&progs[nthreads],1,flags&1,caseno*1000003ull+99991ull);
+			alarm(0);
 			cppcms_verif_cache_hook=0;
-			for(int t=0;t<=nthreads;t++) {
+			for(int t=0;t<=nthreads+1;t++) {
 				for(size_t i=0;i<progs[t].size();i++) {
 					op_t &o=progs[t][i];
 					std::cout<<"R "<<t<<" "<<i<<" "<<o.inv<<" "<<o.res<<" ";
